@@ -53,8 +53,12 @@ def _outcome(exc):
     return {"outcome": "error:" + name, "msg": str(exc)[:200]}
 
 
-def exec_op(op, dbmap, state):
-    """Execute one store operation; returns a JSON-able reply."""
+def exec_op(op, dbmap, state, on_failure=None):
+    """Execute one store operation; returns a JSON-able reply.
+
+    on_failure, if given, is called INSIDE the except block of a failed operation - while the exception object, its
+    traceback and everything they keep alive still exist - and its result is returned under 'held'.  This is the
+    caller who retries right in the handler: `try: op() except Exception: op()`."""
     import pygaps
     import pygaps.parsing.sqlite as pgsql
     from sim.worlds import build
@@ -139,6 +143,8 @@ def exec_op(op, dbmap, state):
     except Exception as e:  # noqa: BLE001 - every outcome is data
         reply.update(_outcome(e))
         failed = True
+        if on_failure is not None:
+            reply["held"] = on_failure()
     else:
         reply.update(_outcome(None))
         failed = False
